@@ -894,8 +894,17 @@ def check_candidate_call(ctx: Ctx):
         ctx.undecided("R03.7.floor", None, None, "floor:R03.7", f"{n} candidate calls observed from matchers, confirmed floor is 2")
 
 
+def _run_rule(ctx, name, fn):
+    """a sub-rule that cannot be evaluated is recorded as undecided; the remaining rules still run"""
+    try:
+        return fn(ctx)
+    except (Undecided, AnchorMissing) as e:
+        ctx.undecided(name, None, None, f"{name}:analysis", f"{type(e).__name__}: {e}")
+        return 0
+
+
 def check(ctx: Ctx):
-    check_no_pruning(ctx)
+    _run_rule(ctx, "check_no_pruning", check_no_pruning)
     _guarded(ctx, "R03.7", check_candidate_call)
     _guarded(ctx, "R03.1", check_codec)
     _guarded(ctx, "R03.2", check_candidates)
@@ -919,7 +928,7 @@ def check(ctx: Ctx):
     # label, every other prediction a label no reference has, in a dtype that holds them (R04.2/R04.4)
     from . import c04 as _c04
 
-    _c04.check_chained_replacement(ctx)
+    _run_rule(ctx, "check_chained_replacement", _c04.check_chained_replacement)
     _c03._guarded(ctx, "R04.2", _c04.check_relabel)
 
 
